@@ -1,11 +1,1603 @@
-//! C10 -- not built yet (stub so the crate layout is stable).
-use crate::engine::report::{Ctx, Report};
-use serde_json::Value;
+//! C10 -- view layout honours constraints, never panics, and draws where it says it does.
+//!
+//! Bounded exhaustive exploration of real view trees. Three explicitly enumerated sub-spaces:
+//!  * S1 "structure": every tree with <= N nodes over a small grammar M (probes, text, scroll bar,
+//!    fill, six containers, frame, tag, dynamic, flex with 2 directions x 2 justifications x 2 child
+//!    attribute sets, 0..=3 children);
+//!  * S2 "rich": every tree with <= 2 nodes over the full parameter lattices of DESIGN.md (all
+//!    leaves incl. 8 scroll bars, container size x align^2 x margins = 768 variants, every flex
+//!    direction x justification x flex factor x alignment x face); thorough adds every tree with
+//!    <= 3 nodes over an intermediate grammar;
+//!  * S3 "flex arithmetic": single flex, 1..=3 children drawn from a few child views with the
+//!    flex-factor / alignment / face lattice.
+//! Every tree is evaluated under all 100 constraints (min <= max over heights {0,1,2,5} x widths
+//! {0,1,3,7}) and, when it contains a glyph-sensitive view (Frame, Glyph), both glyph settings.
+//! Every tree is also serialised to JSON by the harness (library forms for text, flex, container,
+//! glyph, image, image_ascii, tag, trace-layout; handlers registered through
+//! `ViewDeserializer::register` for the view types without a JSON form) and rebuilt through
+//! `ViewDeserializer`; both builds must lay out and paint identically.
+//!
+//! Oracles: no panic; cells outside the given surface untouched (sentinel border); for text,
+//! flex, container, image, glyph, fill and surface views (at any depth, observed through a
+//! transparent harness wrapper) min <= size <= max of the constraint they were given; probe
+//! leaves paint exactly the rectangle obtained by summing positions down the layout tree clipped
+//! by every ancestor and by the surface; `find_path` for every painted cell ends at the probe's
+//! layout node.
+use super::c09::{image_cells, make_glyph, sentinel, view_ctx, SENT_CHAR};
+use crate::engine::catch;
+use crate::engine::report::{Ctx, Report, Samples, Tier, Violations};
+use crate::engine::util::hash64;
+use rayon::prelude::*;
+use serde::{Deserialize, Serialize};
+use serde_json::{json, Value};
+use std::collections::HashSet;
+use std::sync::atomic::{AtomicBool, AtomicU64, Ordering};
+use std::sync::{Arc, LazyLock, Mutex};
+use surf_n_term::render::CellKind;
+use surf_n_term::view::{
+    Align, ArcView, Axis, BoxConstraint, Container, Dynamic, Either, Flex, FlexChild, FlexRef, Frame, Justify,
+    Layout, Margins, ScrollBar, ScrollBarPosition, Tag, Text, Tree, TreeMut, View, ViewContext,
+    ViewDeserializer, ViewLayout, ViewLayoutStore, ViewMutLayout,
+};
+use surf_n_term::{
+    Cell, CellWrite, Color, Error, Face, FaceAttrs, Glyph, Image, Position, Shape, Size, Surface, SurfaceMut,
+    SurfaceMutView, SurfaceOwned, TerminalSurface, RGBA,
+};
 
-pub fn run(_ctx: &Ctx) -> Result<Report, String> {
-    Err("C10: check not built yet".into())
+// ---------------------------------------------------------------------------------------------
+// tree specification (plain data; serialisable as witness)
+// ---------------------------------------------------------------------------------------------
+
+#[derive(Clone, Copy, Debug, PartialEq, Eq, Hash, Serialize, Deserialize)]
+enum Leaf {
+    ProbeFill,
+    ProbeFixed,
+    StrAb,
+    StrNl,
+    StrWide,
+    TextNoWrap,
+    Fill,
+    Unit,
+    Image,
+    ImageAscii,
+    Glyph,
+    /// (vertical?, index into VISIBLE)
+    ScrollBar(bool, u8),
+    Surface,
+    None,
 }
 
-pub fn replay(_w: &Value) -> Result<(bool, String), String> {
-    Err("C10: check not built yet".into())
+const VISIBLE: [f64; 4] = [0.0, 0.5, 1.0, f64::NAN];
+const SIZES: [(usize, usize); 3] = [(0, 0), (2, 3), (usize::MAX, usize::MAX)];
+const ALIGNS: [Align; 8] = [
+    Align::Start,
+    Align::Center,
+    Align::End,
+    Align::Expand,
+    Align::Shrink,
+    Align::Offset(1),
+    Align::Offset(-1),
+    Align::Offset(i32::MIN),
+];
+/// (left, right, top, bottom)
+const MARGINS: [(usize, usize, usize, usize); 4] =
+    [(0, 0, 0, 0), (1, 1, 1, 1), (0, 3, 0, 0), (usize::MAX, usize::MAX, usize::MAX, usize::MAX)];
+const FLEX: [Option<f64>; 7] = [None, Some(1.0), Some(2.0), Some(0.1), Some(-1.0), Some(f64::NAN), Some(1e308)];
+/// indices into ALIGNS used for flex children
+const FLEX_ALIGNS: [u8; 4] = [0, 1, 2, 5];
+const JUSTIFY: [Justify; 6] =
+    [Justify::Start, Justify::Center, Justify::End, Justify::SpaceBetween, Justify::SpaceAround, Justify::SpaceEvenly];
+const JUSTIFY_NAMES: [&str; 6] = ["start", "center", "end", "space-between", "space-around", "space-evenly"];
+
+#[derive(Clone, Copy, Debug, PartialEq, Eq, Hash, Serialize, Deserialize)]
+struct ContP {
+    size: u8,
+    vertical: u8,
+    horizontal: u8,
+    margins: u8,
+    face: bool,
+}
+
+#[derive(Clone, Copy, Debug, PartialEq, Eq, Hash, Serialize, Deserialize)]
+enum Unary {
+    Container(ContP),
+    Frame,
+    Tag,
+    Dynamic,
+    Some,
+    Either(bool),
+    Trace,
+}
+
+#[derive(Clone, Copy, Debug, PartialEq, Eq, Hash, Serialize, Deserialize)]
+struct FlexAttr {
+    flex: u8,
+    align: u8,
+    face: bool,
+}
+
+#[derive(Clone, Debug, PartialEq, Eq, Hash, Serialize, Deserialize)]
+enum Spec {
+    Leaf(Leaf),
+    Unary(Unary, Box<Spec>),
+    /// (vertical?, justify index, children)
+    Flex(bool, u8, Vec<(FlexAttr, Spec)>),
+}
+
+impl Spec {
+    fn nodes(&self) -> usize {
+        match self {
+            Spec::Leaf(_) => 1,
+            Spec::Unary(_, c) => 1 + c.nodes(),
+            Spec::Flex(_, _, ch) => 1 + ch.iter().map(|(_, c)| c.nodes()).sum::<usize>(),
+        }
+    }
+    fn glyph_sensitive(&self) -> bool {
+        match self {
+            Spec::Leaf(l) => matches!(l, Leaf::Glyph),
+            Spec::Unary(u, c) => matches!(u, Unary::Frame) || c.glyph_sensitive(),
+            Spec::Flex(_, _, ch) => ch.iter().any(|(_, c)| c.glyph_sensitive()),
+        }
+    }
+    fn has_nan(&self) -> bool {
+        match self {
+            Spec::Leaf(_) => false,
+            Spec::Unary(_, c) => c.has_nan(),
+            Spec::Flex(_, _, ch) => ch.iter().any(|(a, c)| FLEX[a.flex as usize].is_some_and(f64::is_nan) || c.has_nan()),
+        }
+    }
+    fn probes(&self) -> usize {
+        match self {
+            Spec::Leaf(l) => matches!(l, Leaf::ProbeFill | Leaf::ProbeFixed) as usize,
+            Spec::Unary(_, c) => c.probes(),
+            Spec::Flex(_, _, ch) => ch.iter().map(|(_, c)| c.probes()).sum(),
+        }
+    }
+    fn kind(&self) -> &'static str {
+        match self {
+            Spec::Leaf(l) => match l {
+                Leaf::ProbeFill | Leaf::ProbeFixed => "probe",
+                Leaf::StrAb | Leaf::StrNl | Leaf::StrWide => "str",
+                Leaf::TextNoWrap => "text",
+                Leaf::Fill => "fill",
+                Leaf::Unit => "unit",
+                Leaf::Image => "image",
+                Leaf::ImageAscii => "image_ascii",
+                Leaf::Glyph => "glyph",
+                Leaf::ScrollBar(..) => "scrollbar",
+                Leaf::Surface => "surface",
+                Leaf::None => "none",
+            },
+            Spec::Unary(u, _) => match u {
+                Unary::Container(_) => "container",
+                Unary::Frame => "frame",
+                Unary::Tag => "tag",
+                Unary::Dynamic => "dynamic",
+                Unary::Some => "some",
+                Unary::Either(_) => "either",
+                Unary::Trace => "trace",
+            },
+            Spec::Flex(..) => "flex",
+        }
+    }
+    /// does the statement bound the size of this view type by its constraint?
+    fn size_bounded(&self) -> bool {
+        matches!(self.kind(), "str" | "text" | "fill" | "unit" | "image" | "image_ascii" | "glyph" | "surface" | "container" | "flex")
+    }
+    fn show(&self) -> String {
+        match self {
+            Spec::Leaf(l) => format!("{l:?}"),
+            Spec::Unary(Unary::Container(p), c) => format!(
+                "Container{{size:{:?},v:{:?},h:{:?},margins:{:?}{}}}({})",
+                SIZES[p.size as usize],
+                ALIGNS[p.vertical as usize],
+                ALIGNS[p.horizontal as usize],
+                MARGINS[p.margins as usize],
+                if p.face { ",face" } else { "" },
+                c.show()
+            ),
+            Spec::Unary(u, c) => format!("{u:?}({})", c.show()),
+            Spec::Flex(v, j, ch) => format!(
+                "Flex{{{},{}}}[{}]",
+                if *v { "vertical" } else { "horizontal" },
+                JUSTIFY_NAMES[*j as usize],
+                ch.iter()
+                    .map(|(a, c)| format!(
+                        "{{flex:{:?},align:{:?}{}}}{}",
+                        FLEX[a.flex as usize],
+                        ALIGNS[a.align as usize],
+                        if a.face { ",face" } else { "" },
+                        c.show()
+                    ))
+                    .collect::<Vec<_>>()
+                    .join(", ")
+            ),
+        }
+    }
+}
+
+// ---------------------------------------------------------------------------------------------
+// shared resources and harness views
+// ---------------------------------------------------------------------------------------------
+
+struct Res {
+    image: Image,
+    image_small: Image,
+    glyph: Glyph,
+    surface: &'static SurfaceOwned<Cell>,
+}
+
+static RES: LazyLock<Res> = LazyLock::new(|| {
+    let surf: SurfaceOwned<Cell> =
+        SurfaceOwned::new_with(Size::new(2, 4), |pos| Cell::new_char(Face::default(), if pos.row == 0 { 's' } else { 't' }));
+    Res {
+        image: image_cells(2, 3, 40),
+        image_small: gray_image(),
+        glyph: make_glyph(Size::new(1, 2), "gl"),
+        surface: Box::leak(Box::new(surf)),
+    }
+});
+
+const GRAY_H: usize = 3;
+const GRAY_W: usize = 4;
+
+fn gray_bytes() -> Vec<u8> {
+    (0..GRAY_H * GRAY_W).map(|i| (i * 20) as u8).collect()
+}
+
+/// 3x4 pixel gray image used by the ImageAsciiView leaf (2 x 4 cells)
+fn gray_image() -> Image {
+    let data: Vec<RGBA> = gray_bytes().into_iter().map(|v| RGBA::new(v, v, v, 255)).collect();
+    Image::from_parts(data.into(), Shape::from(Size::new(GRAY_H, GRAY_W)))
+}
+
+fn fill_color() -> RGBA {
+    RGBA::new(0, 128, 0, 255)
+}
+
+fn face_for(i: usize) -> Face {
+    Face::new(None, Some(RGBA::new(255, (i * 40) as u8, 0, 255)), FaceAttrs::EMPTY)
+}
+
+fn face_str(i: usize) -> String {
+    format!("bg=#ff{:02x}00", i * 40)
+}
+
+/// What the harness views record during one evaluation.
+#[derive(Default)]
+struct Log {
+    /// (observed node index, constraint, reported size)
+    sizes: Mutex<Vec<(usize, BoxConstraint, Size)>>,
+    /// (probe id, shape handed to the probe after `apply_to`)
+    probe_shapes: Mutex<Vec<(u8, Shape)>>,
+    traces: AtomicU64,
+}
+
+impl Log {
+    fn clear(&self) {
+        self.sizes.lock().unwrap().clear();
+        self.probe_shapes.lock().unwrap().clear();
+    }
+}
+
+fn probe_char(id: u8) -> char {
+    (b'A' + id) as char
+}
+
+/// Probe leaf: reports `ct.max` (fill) or a clamped 2x3 (fixed); paints its id over the whole
+/// surface obtained from `Layout::apply_to` and records that surface's shape.
+struct Probe {
+    id: u8,
+    fixed: bool,
+    log: Arc<Log>,
+}
+
+impl View for Probe {
+    fn render(&self, _ctx: &ViewContext, surf: TerminalSurface<'_>, layout: ViewLayout<'_>) -> Result<(), Error> {
+        let mut surf = layout.apply_to(surf);
+        self.log.probe_shapes.lock().unwrap().push((self.id, surf.shape()));
+        surf.fill(Cell::new_char(Face::default(), probe_char(self.id)));
+        Ok(())
+    }
+
+    fn layout(&self, _ctx: &ViewContext, ct: BoxConstraint, mut layout: ViewMutLayout<'_>) -> Result<(), Error> {
+        let size = if self.fixed {
+            Size::new(2.max(ct.min().height).min(ct.max().height), 3.max(ct.min().width).min(ct.max().width))
+        } else {
+            ct.max()
+        };
+        *layout = Layout::new().with_size(size);
+        Ok(())
+    }
+}
+
+/// Transparent wrapper recording the constraint given to and the size reported by a node.
+struct Obs {
+    node: usize,
+    inner: Box<dyn View>,
+    log: Arc<Log>,
+}
+
+impl View for Obs {
+    fn render(&self, ctx: &ViewContext, surf: TerminalSurface<'_>, layout: ViewLayout<'_>) -> Result<(), Error> {
+        self.inner.render(ctx, surf, layout)
+    }
+
+    fn layout(&self, ctx: &ViewContext, ct: BoxConstraint, mut layout: ViewMutLayout<'_>) -> Result<(), Error> {
+        self.inner.layout(ctx, ct, layout.view_mut())?;
+        self.log.sizes.lock().unwrap().push((self.node, ct, layout.size()));
+        Ok(())
+    }
+}
+
+/// View used by a JSON handler when its nested view cannot be deserialised.
+struct FailView;
+
+impl View for FailView {
+    fn render(&self, _ctx: &ViewContext, _surf: TerminalSurface<'_>, _layout: ViewLayout<'_>) -> Result<(), Error> {
+        Err(Error::InvalidLayout)
+    }
+    fn layout(&self, _ctx: &ViewContext, _ct: BoxConstraint, _layout: ViewMutLayout<'_>) -> Result<(), Error> {
+        Err(Error::InvalidLayout)
+    }
+}
+
+fn axis(vertical: bool) -> Axis {
+    if vertical {
+        Axis::Vertical
+    } else {
+        Axis::Horizontal
+    }
+}
+
+fn leaf_view(leaf: Leaf, probe_id: &mut u8, log: &Arc<Log>) -> Box<dyn View> {
+    match leaf {
+        Leaf::ProbeFill | Leaf::ProbeFixed => {
+            let id = *probe_id;
+            *probe_id += 1;
+            Box::new(Probe { id, fixed: leaf == Leaf::ProbeFixed, log: log.clone() })
+        }
+        Leaf::StrAb => Box::new("ab".to_string()),
+        Leaf::StrNl => Box::new("a\nbcd".to_string()),
+        Leaf::StrWide => Box::new("世x".to_string()),
+        Leaf::TextNoWrap => {
+            let mut text = Text::new().with_wraps(false);
+            text.put_fmt("abcdefgh", None);
+            Box::new(text)
+        }
+        Leaf::Fill => Box::new(fill_color()),
+        Leaf::Unit => Box::new(()),
+        Leaf::Image => Box::new(RES.image.clone()),
+        Leaf::ImageAscii => Box::new(RES.image_small.ascii_view()),
+        Leaf::Glyph => Box::new(RES.glyph.clone()),
+        Leaf::ScrollBar(vertical, vis) => Box::new(ScrollBar::new(
+            axis(vertical),
+            Face::new(Some(RGBA::new(0, 128, 0, 255)), Some(RGBA::new(128, 0, 0, 255)), FaceAttrs::EMPTY),
+            ScrollBarPosition { offset: 0.5, visible: VISIBLE[vis as usize] },
+        )),
+        Leaf::Surface => Box::new(RES.surface.as_ref()),
+        Leaf::None => Box::new(Option::<Box<dyn View>>::None),
+    }
+}
+
+fn margins_of(i: u8) -> Margins {
+    let (left, right, top, bottom) = MARGINS[i as usize];
+    Margins { left, right, top, bottom }
+}
+
+fn wrap_unary(u: Unary, child: Box<dyn View>, log: &Arc<Log>) -> Box<dyn View> {
+    match u {
+        Unary::Container(p) => {
+            let (h, w) = SIZES[p.size as usize];
+            let mut c = Container::new(child)
+                .with_size(Size::new(h, w))
+                .with_vertical(ALIGNS[p.vertical as usize])
+                .with_horizontal(ALIGNS[p.horizontal as usize])
+                .with_margins(margins_of(p.margins));
+            if p.face {
+                c = c.with_face(face_for(5));
+            }
+            Box::new(c)
+        }
+        Unary::Frame => Box::new(Frame::new(child, RGBA::new(10, 20, 30, 255), RGBA::new(200, 200, 200, 255), 0.1, 0.5)),
+        Unary::Tag => Box::new(Tag::new(7u32, child)),
+        Unary::Dynamic => {
+            let child: ArcView<'static> = Arc::from(child);
+            Box::new(Dynamic::new(move |_ctx: &ViewContext, _ct: BoxConstraint| child.clone()))
+        }
+        Unary::Some => Box::new(Some(child)),
+        Unary::Either(left) => {
+            if left {
+                Box::new(Either::<Box<dyn View>, Box<dyn View>>::Left(child))
+            } else {
+                Box::new(Either::<Box<dyn View>, Box<dyn View>>::Right(child))
+            }
+        }
+        Unary::Trace => {
+            let log = log.clone();
+            Box::new(child.trace_layout(move |_ct: &BoxConstraint, _layout: ViewLayout<'_>| {
+                log.traces.fetch_add(1, Ordering::Relaxed);
+            }))
+        }
+    }
+}
+
+/// Direct build through the Rust API. Nodes are numbered in pre-order; every node is wrapped
+/// in `Obs`. Returns the view and appends (node index -> spec) to `nodes`.
+fn build<'s>(spec: &'s Spec, probe_id: &mut u8, nodes: &mut Vec<&'s Spec>, log: &Arc<Log>) -> Box<dyn View> {
+    let node = nodes.len();
+    nodes.push(spec);
+    let inner: Box<dyn View> = match spec {
+        Spec::Leaf(l) => leaf_view(*l, probe_id, log),
+        Spec::Unary(u, c) => {
+            let child = build(c, probe_id, nodes, log);
+            wrap_unary(*u, child, log)
+        }
+        Spec::Flex(vertical, justify, children)
+            if *vertical && children.iter().all(|(a, _)| FLEX[a.flex as usize].is_none_or(|f| f > 0.0)) =>
+        {
+            // `Flex` proper (its builder drops non-positive factors, so it is used only when all
+            // factors are positive); vertical ones, so that both flex types see every parameter
+            let mut flex = Flex::new(Axis::Vertical).justify(JUSTIFY[*justify as usize]);
+            for (i, (attr, c)) in children.iter().enumerate() {
+                flex.push_child_ext(
+                    build(c, probe_id, nodes, log),
+                    FLEX[attr.flex as usize],
+                    attr.face.then(|| face_for(i)),
+                    ALIGNS[attr.align as usize],
+                );
+            }
+            Box::new(flex)
+        }
+        Spec::Flex(vertical, justify, children) => {
+            let mut v: Vec<FlexChild<Box<dyn View>>> = Vec::new();
+            for (i, (attr, c)) in children.iter().enumerate() {
+                let mut fc = FlexChild::new(build(c, probe_id, nodes, log)).align(ALIGNS[attr.align as usize]);
+                if let Some(f) = FLEX[attr.flex as usize] {
+                    fc = fc.flex(f);
+                }
+                if attr.face {
+                    fc = fc.face(face_for(i));
+                }
+                v.push(fc);
+            }
+            Box::new(FlexRef::new(v).direction(axis(*vertical)).justify(JUSTIFY[*justify as usize]))
+        }
+    };
+    Box::new(Obs { node, inner, log: log.clone() })
+}
+
+// ---------------------------------------------------------------------------------------------
+// JSON twin
+// ---------------------------------------------------------------------------------------------
+
+fn base64(data: &[u8]) -> String {
+    const T: &[u8; 64] = b"ABCDEFGHIJKLMNOPQRSTUVWXYZabcdefghijklmnopqrstuvwxyz0123456789+/";
+    let mut s = String::new();
+    for chunk in data.chunks(3) {
+        let b = [chunk[0], *chunk.get(1).unwrap_or(&0), *chunk.get(2).unwrap_or(&0)];
+        let n = (b[0] as u32) << 16 | (b[1] as u32) << 8 | b[2] as u32;
+        s.push(T[(n >> 18) as usize & 63] as char);
+        s.push(T[(n >> 12) as usize & 63] as char);
+        s.push(if chunk.len() > 1 { T[(n >> 6) as usize & 63] as char } else { '=' });
+        s.push(if chunk.len() > 2 { T[n as usize & 63] as char } else { '=' });
+    }
+    s
+}
+
+fn align_json(a: Align) -> Value {
+    match a {
+        Align::Start => json!("start"),
+        Align::Center => json!("center"),
+        Align::End => json!("end"),
+        Align::Expand => json!("expand"),
+        Align::Shrink => json!("shrink"),
+        Align::Offset(n) => json!({ "offset": n }),
+    }
+}
+
+fn image_json(kind: &str, image: &Image) -> Value {
+    let mut bytes = vec![];
+    for px in image.iter() {
+        bytes.extend_from_slice(&px.to_rgba());
+    }
+    json!({"type": kind, "size": [image.height(), image.width()], "channels": 4, "data": base64(&bytes)})
+}
+
+/// JSON form of a tree (probe ids assigned in the same pre-order as `build`).
+fn to_json(spec: &Spec, probe_id: &mut u8) -> Value {
+    match spec {
+        Spec::Leaf(l) => match l {
+            Leaf::ProbeFill | Leaf::ProbeFixed => {
+                let id = *probe_id;
+                *probe_id += 1;
+                json!({"type": "x-probe", "id": id, "fixed": *l == Leaf::ProbeFixed})
+            }
+            Leaf::StrAb => json!({"type": "text", "text": "ab"}),
+            Leaf::StrNl => json!({"type": "text", "text": ["a\n", {"text": "bcd"}]}),
+            Leaf::StrWide => json!({"type": "text", "text": "世x"}),
+            Leaf::TextNoWrap => json!({"type": "text", "wraps": false, "text": "abcdefgh"}),
+            Leaf::Fill => json!({"type": "x-fill"}),
+            Leaf::Unit => json!({"type": "x-unit"}),
+            Leaf::Image => image_json("image", &RES.image),
+            Leaf::ImageAscii => {
+                json!({"type": "image_ascii", "size": {"height": GRAY_H, "width": GRAY_W}, "channels": 1, "data": base64(&gray_bytes())})
+            }
+            Leaf::Glyph => json!({"type": "glyph", "path": "M1,1 h18 v18 h-18 Z", "size": [1, 2], "fallback": "gl"}),
+            Leaf::ScrollBar(vertical, vis) => json!({"type": "x-scrollbar", "vertical": vertical, "visible": vis}),
+            Leaf::Surface => json!({"type": "x-surface"}),
+            Leaf::None => json!({"type": "x-none"}),
+        },
+        Spec::Unary(u, c) => {
+            let child = to_json(c, probe_id);
+            match u {
+                Unary::Container(p) => {
+                    let (h, w) = SIZES[p.size as usize];
+                    let (left, right, top, bottom) = MARGINS[p.margins as usize];
+                    let mut v = json!({
+                        "type": "container",
+                        "vertical": align_json(ALIGNS[p.vertical as usize]),
+                        "horizontal": align_json(ALIGNS[p.horizontal as usize]),
+                        "margins": {"left": left, "right": right, "top": top, "bottom": bottom},
+                        "size": {"height": h, "width": w},
+                        "child": child,
+                    });
+                    if p.face {
+                        v["face"] = json!(face_str(5));
+                    }
+                    v
+                }
+                Unary::Frame => json!({"type": "x-frame", "view": child}),
+                Unary::Tag => json!({"type": "tag", "tag": 7, "view": child}),
+                Unary::Dynamic => json!({"type": "x-dynamic", "view": child}),
+                Unary::Some => json!({"type": "x-some", "view": child}),
+                Unary::Either(left) => json!({"type": "x-either", "left": left, "view": child}),
+                Unary::Trace => json!({"type": "trace-layout", "msg": "c10", "view": child}),
+            }
+        }
+        Spec::Flex(vertical, justify, children) => {
+            let mut list = vec![];
+            for (i, (attr, c)) in children.iter().enumerate() {
+                let view = to_json(c, probe_id);
+                let plain = FLEX[attr.flex as usize].is_none() && attr.align == 0 && !attr.face;
+                if plain && i % 2 == 1 {
+                    // the bare form: a child that is itself a view object
+                    list.push(view);
+                } else {
+                    let mut v = json!({"align": align_json(ALIGNS[attr.align as usize]), "view": view});
+                    if let Some(f) = FLEX[attr.flex as usize] {
+                        v["flex"] = json!(f);
+                    }
+                    if attr.face {
+                        v["face"] = json!(face_str(i));
+                    }
+                    list.push(v);
+                }
+            }
+            json!({
+                "type": "flex",
+                "direction": if *vertical { "vertical" } else { "horizontal" },
+                "justify": JUSTIFY_NAMES[*justify as usize],
+                "children": list,
+            })
+        }
+    }
+}
+
+fn nested(seed: &ViewDeserializer<'_>, value: &Value) -> Box<dyn View> {
+    use serde::de::DeserializeSeed;
+    match value.get("view") {
+        Some(v) => match seed.deserialize(v) {
+            Ok(view) => Box::new(view),
+            Err(_) => Box::new(FailView),
+        },
+        None => Box::new(FailView),
+    }
+}
+
+/// Deserializer with handlers for the view types that have no JSON form of their own.
+fn deserializer(log: &Arc<Log>) -> ViewDeserializer<'static> {
+    let mut de = ViewDeserializer::new(None, None);
+    let l = log.clone();
+    de.register("x-probe", move |_seed: &ViewDeserializer<'_>, v: &Value| -> ArcView<'static> {
+        Arc::new(Probe { id: v["id"].as_u64().unwrap_or(0) as u8, fixed: v["fixed"].as_bool().unwrap_or(false), log: l.clone() })
+    });
+    de.register("x-fill", |_seed: &ViewDeserializer<'_>, _v: &Value| -> ArcView<'static> { Arc::new(fill_color()) });
+    de.register("x-unit", |_seed: &ViewDeserializer<'_>, _v: &Value| -> ArcView<'static> { Arc::new(()) });
+    let l = log.clone();
+    de.register("x-scrollbar", move |_seed: &ViewDeserializer<'_>, v: &Value| -> ArcView<'static> {
+        let mut id = 0;
+        Arc::from(leaf_view(
+            Leaf::ScrollBar(v["vertical"].as_bool().unwrap_or(false), v["visible"].as_u64().unwrap_or(0) as u8),
+            &mut id,
+            &l,
+        ))
+    });
+    de.register("x-surface", |_seed: &ViewDeserializer<'_>, _v: &Value| -> ArcView<'static> { Arc::new(RES.surface.as_ref()) });
+    de.register("x-none", |_seed: &ViewDeserializer<'_>, _v: &Value| -> ArcView<'static> {
+        Arc::new(Option::<Box<dyn View>>::None)
+    });
+    for (name, unary) in [
+        ("x-frame", Unary::Frame),
+        ("x-dynamic", Unary::Dynamic),
+        ("x-some", Unary::Some),
+    ] {
+        let l = log.clone();
+        de.register(name, move |seed: &ViewDeserializer<'_>, v: &Value| -> ArcView<'static> {
+            Arc::from(wrap_unary(unary, nested(seed, v), &l))
+        });
+    }
+    let l = log.clone();
+    de.register("x-either", move |seed: &ViewDeserializer<'_>, v: &Value| -> ArcView<'static> {
+        Arc::from(wrap_unary(Unary::Either(v["left"].as_bool().unwrap_or(true)), nested(seed, v), &l))
+    });
+    de
+}
+
+// ---------------------------------------------------------------------------------------------
+// one evaluation: layout + render + oracles
+// ---------------------------------------------------------------------------------------------
+
+struct Found {
+    kind: String,
+    detail: String,
+}
+
+#[derive(Clone, Copy, Debug, PartialEq, Eq)]
+struct Rect {
+    r0: u128,
+    r1: u128,
+    c0: u128,
+    c1: u128,
+}
+
+impl Rect {
+    fn intersect(&self, o: &Rect) -> Rect {
+        let r = Rect { r0: self.r0.max(o.r0), r1: self.r1.min(o.r1), c0: self.c0.max(o.c0), c1: self.c1.min(o.c1) };
+        if r.r0 >= r.r1 || r.c0 >= r.c1 {
+            Rect { r0: 0, r1: 0, c0: 0, c1: 0 }
+        } else {
+            r
+        }
+    }
+    fn contains(&self, r: usize, c: usize) -> bool {
+        let (r, c) = (r as u128, c as u128);
+        self.r0 <= r && r < self.r1 && self.c0 <= c && c < self.c1
+    }
+    fn cells(&self) -> Vec<(usize, usize)> {
+        let mut v = vec![];
+        for r in self.r0..self.r1 {
+            for c in self.c0..self.c1 {
+                v.push((r as usize, c as usize));
+            }
+        }
+        v
+    }
+}
+
+struct ProbeExpect {
+    rect: Rect,
+    node: *const Layout,
+}
+
+/// Harness reading of the layout tree: where each probe of `spec` must paint.
+/// `origin` = absolute position of the parent's top-left corner, `clip` = visible region so far.
+fn walk(
+    spec: &Spec,
+    node: &ViewLayout<'_>,
+    origin: (u128, u128),
+    clip: Rect,
+    glyphs: bool,
+    out: &mut Vec<ProbeExpect>,
+) -> Result<(), String> {
+    let transparent = match spec {
+        Spec::Unary(Unary::Some | Unary::Either(_) | Unary::Trace, _) => true,
+        Spec::Unary(Unary::Frame, _) => !glyphs,
+        _ => false,
+    };
+    if transparent {
+        let Spec::Unary(_, child) = spec else { unreachable!() };
+        return walk(child, node, origin, clip, glyphs, out);
+    }
+    let pos = node.position();
+    let size = node.size();
+    let abs = (origin.0 + pos.row as u128, origin.1 + pos.col as u128);
+    let rect = Rect { r0: abs.0, r1: abs.0 + size.height as u128, c0: abs.1, c1: abs.1 + size.width as u128 };
+    let clip = clip.intersect(&rect);
+    match spec {
+        Spec::Leaf(Leaf::ProbeFill | Leaf::ProbeFixed) => {
+            out.push(ProbeExpect { rect: clip, node: node.value() as *const Layout });
+            Ok(())
+        }
+        Spec::Leaf(_) => Ok(()),
+        Spec::Unary(_, child) => {
+            let mut children = node.children();
+            let Some(first) = children.next() else {
+                // a flex child whose share is empty is never laid out (its node stays the default
+                // one) and never rendered: legitimate as long as nothing below it can be visible
+                if clip.r0 == clip.r1 {
+                    for _ in 0..spec.probes() {
+                        out.push(ProbeExpect { rect: clip, node: std::ptr::null() });
+                    }
+                    return Ok(());
+                }
+                return Err(format!("layout node of {} has no child node", spec.kind()));
+            };
+            if children.next().is_some() {
+                return Err(format!("layout node of {} has more than one child node", spec.kind()));
+            }
+            walk(child, &first, abs, clip, glyphs, out)
+        }
+        Spec::Flex(_, _, specs) => {
+            let nodes: Vec<_> = node.children().collect();
+            if nodes.is_empty() && clip.r0 == clip.r1 {
+                for _ in 0..spec.probes() {
+                    out.push(ProbeExpect { rect: clip, node: std::ptr::null() });
+                }
+                return Ok(());
+            }
+            if nodes.len() != specs.len() {
+                return Err(format!("flex with {} children has {} layout child nodes", specs.len(), nodes.len()));
+            }
+            for ((_, child), child_node) in specs.iter().zip(nodes.iter()) {
+                walk(child, child_node, abs, clip, glyphs, out)?;
+            }
+            Ok(())
+        }
+    }
+}
+
+fn layout_sig(node: &ViewLayout<'_>, depth: u8, out: &mut Vec<(u8, Position, Size)>) {
+    out.push((depth, node.position(), node.size()));
+    for child in node.children() {
+        layout_sig(&child, depth + 1, out);
+    }
+}
+
+fn cell_class(cell: &Cell, ppc: Size) -> (u8, u32, usize, usize) {
+    match cell.kind() {
+        CellKind::Char(c) => (0, *c as u32, 0, 0),
+        CellKind::Glyph(g) => (1, 0, g.size().height, g.size().width),
+        CellKind::Image(i) => {
+            let s = i.size_cells(ppc);
+            (2, 0, s.height, s.width)
+        }
+    }
+}
+
+fn show_canvas(data: &[Cell], width: usize) -> String {
+    let mut s = String::new();
+    for (i, cell) in data.iter().enumerate() {
+        if i % width == 0 {
+            s.push_str("\n    |");
+        }
+        s.push(match cell.kind() {
+            CellKind::Char(c) if *c == SENT_CHAR && *cell != sentinel() => '%',
+            CellKind::Char(c) if (*c as u32) < 0x20 => '^',
+            CellKind::Char(c) => *c,
+            CellKind::Glyph(_) => 'G',
+            CellKind::Image(_) => 'I',
+        });
+    }
+    s
+}
+
+#[derive(Clone, Copy, Debug, PartialEq, Eq, Hash)]
+struct Ct {
+    min: Size,
+    max: Size,
+}
+
+impl Ct {
+    fn json(&self) -> Value {
+        json!([self.min.height, self.min.width, self.max.height, self.max.width])
+    }
+}
+
+fn constraints() -> Vec<Ct> {
+    let hs = [0usize, 1, 2, 5];
+    let ws = [0usize, 1, 3, 7];
+    let mut v = vec![];
+    for (i, hmin) in hs.iter().enumerate() {
+        for hmax in &hs[i..] {
+            for (j, wmin) in ws.iter().enumerate() {
+                for wmax in &ws[j..] {
+                    v.push(Ct { min: Size::new(*hmin, *wmin), max: Size::new(*hmax, *wmax) });
+                }
+            }
+        }
+    }
+    v
+}
+
+struct EvalOut {
+    layout: Vec<(u8, Position, Size)>,
+    canvas: Vec<((u8, u32, usize, usize), Face)>,
+    painted: usize,
+    root_size: Size,
+}
+
+/// Lay out and render `view` (built from `spec`) under `ct`; check every oracle.
+/// `nodes` (pre-order specs of the `Obs` wrappers) is present for the direct build only.
+fn evaluate(
+    spec: &Spec,
+    view: &dyn View,
+    nodes: Option<&[&Spec]>,
+    log: &Log,
+    vctx: &ViewContext,
+    ct: Ct,
+    glyphs: bool,
+) -> Result<EvalOut, Found> {
+    log.clear();
+    let mut store = ViewLayoutStore::new();
+    let bc = BoxConstraint::new(ct.min, ct.max);
+    let layout = match catch(|| view.layout_new(vctx, bc, &mut store)) {
+        Err(p) => {
+            return Err(Found { kind: p.key(), detail: format!("layout panicked: {} ({}:{})", p.message, p.file, p.line) })
+        }
+        Ok(Err(e)) => return Err(Found { kind: format!("layout-error:{}", spec.kind()), detail: format!("layout returned {e:?}") }),
+        Ok(Ok(l)) => l,
+    };
+    let root = layout.view();
+    let tree_dump = || format!("{:?}", layout.view());
+
+    // sizes within the constraint each bounded view was given
+    if let Some(nodes) = nodes {
+        for (node, nct, size) in log.sizes.lock().unwrap().iter() {
+            let ns = nodes[*node];
+            let (min, max) = (nct.min(), nct.max());
+            if !ns.size_bounded() || min.height > max.height || min.width > max.width {
+                continue;
+            }
+            if size.height < min.height || size.height > max.height || size.width < min.width || size.width > max.width {
+                return Err(Found {
+                    kind: format!("size-outside-constraint:{}", ns.kind()),
+                    detail: format!(
+                        "view #{} {} was given constraint min={:?} max={:?} and reported size {:?}; expected min <= size <= max; layout tree:{}",
+                        node, ns.show(), min, max, size, tree_dump()
+                    ),
+                });
+            }
+        }
+    }
+
+    // render into a sentinel-bordered sub-view of size ct.max
+    let (h, w) = (ct.max.height, ct.max.width);
+    let cw = w + 2;
+    let mut data = vec![sentinel(); (h + 2) * cw];
+    let start = cw + 1;
+    let shape = Shape {
+        start,
+        end: if h == 0 || w == 0 { start } else { start + (h - 1) * cw + w },
+        width: w,
+        height: h,
+        row_stride: cw,
+        col_stride: 1,
+    };
+    let rendered = {
+        let surf = SurfaceMutView::new(shape, &mut data[..]);
+        catch(|| view.render(vctx, surf, layout.view()))
+    };
+    match rendered {
+        Err(p) => {
+            return Err(Found {
+                kind: p.key(),
+                detail: format!("render panicked: {} ({}:{}); layout tree:{}", p.message, p.file, p.line, tree_dump()),
+            })
+        }
+        Ok(Err(e)) => {
+            return Err(Found {
+                kind: format!("render-error:{}", spec.kind()),
+                detail: format!("render of the layout computed by the same view returned {e:?}; layout tree:{}", tree_dump()),
+            })
+        }
+        Ok(Ok(())) => {}
+    }
+    let sent = sentinel();
+    for (i, cell) in data.iter().enumerate() {
+        let (r, c) = (i / cw, i % cw);
+        let inside = r >= 1 && r <= h && c >= 1 && c <= w;
+        if !inside && *cell != sent {
+            return Err(Found {
+                kind: format!("border-modified:{}", spec.kind()),
+                detail: format!(
+                    "cell (row {}, col {}) of the canvas lies outside the {}x{} surface given to render (origin at 1,1) but was changed; canvas:{}\n  layout tree:{}",
+                    r, c, h, w, show_canvas(&data, cw), tree_dump()
+                ),
+            });
+        }
+    }
+
+    // probes
+    let mut expect = vec![];
+    let surface_rect = if h == 0 || w == 0 { Rect { r0: 0, r1: 0, c0: 0, c1: 0 } } else { Rect { r0: 0, r1: h as u128, c0: 0, c1: w as u128 } };
+    if let Err(e) = walk(spec, &root, (0, 0), surface_rect, glyphs, &mut expect) {
+        return Err(Found { kind: format!("layout-tree-shape:{}", spec.kind()), detail: format!("{e}; layout tree:{}", tree_dump()) });
+    }
+    let root_pos = root.position();
+    let mut painted_total = 0;
+    for (id, pe) in expect.iter().enumerate() {
+        let ch = probe_char(id as u8);
+        let mut painted = vec![];
+        for r in 0..h {
+            for c in 0..w {
+                if matches!(data[(r + 1) * cw + c + 1].kind(), CellKind::Char(x) if *x == ch) {
+                    painted.push((r, c));
+                }
+            }
+        }
+        painted_total += painted.len();
+        let expected = pe.rect.cells();
+        if painted != expected {
+            let outside = painted.iter().any(|(r, c)| !pe.rect.contains(*r, *c));
+            return Err(Found {
+                kind: format!("{}:{}", if outside { "probe-paints-outside-layout-rect" } else { "probe-layout-rect-not-painted" }, spec.kind()),
+                detail: format!(
+                    "probe {} : the layout tree places it at rows {}..{} cols {}..{} of the surface (positions summed, clipped by ancestors and surface) but it painted {:?}; canvas:{}\n  layout tree:{}",
+                    ch, pe.rect.r0, pe.rect.r1, pe.rect.c0, pe.rect.c1, painted, show_canvas(&data, cw), tree_dump()
+                ),
+            });
+        }
+        for (r, c) in &painted {
+            if *r < root_pos.row || *c < root_pos.col {
+                continue;
+            }
+            let pos = Position::new(r - root_pos.row, c - root_pos.col);
+            let last = root.find_path(pos).last();
+            if !last.is_some_and(|l| std::ptr::eq(l as *const Layout, pe.node)) {
+                return Err(Found {
+                    kind: format!("find-path-wrong-node:{}", spec.kind()),
+                    detail: format!(
+                        "probe {} painted surface cell ({}, {}) but find_path({:?}) ends at {:?}, expected the probe's node {:?}; layout tree:{}",
+                        ch, r, c, pos, last, unsafe { &*pe.node }, tree_dump()
+                    ),
+                });
+            }
+        }
+    }
+
+    let mut sig = vec![];
+    layout_sig(&root, 0, &mut sig);
+    let ppc = vctx.pixels_per_cell();
+    let canvas = data.iter().map(|c| (cell_class(c, ppc), c.face())).collect();
+    Ok(EvalOut { layout: sig, canvas, painted: painted_total, root_size: root.size() })
+}
+
+// ---------------------------------------------------------------------------------------------
+// one tree: direct build + JSON twin over all constraints
+// ---------------------------------------------------------------------------------------------
+
+struct Ctxs {
+    on: ViewContext,
+    off: ViewContext,
+}
+
+impl Ctxs {
+    fn new() -> Self {
+        LazyLock::force(&RES);
+        Self { on: view_ctx(true), off: view_ctx(false) }
+    }
+    fn get(&self, glyphs: bool) -> &ViewContext {
+        if glyphs {
+            &self.on
+        } else {
+            &self.off
+        }
+    }
+}
+
+fn build_twin(spec: &Spec, log: &Arc<Log>) -> Result<ArcView<'static>, Found> {
+    use serde::de::DeserializeSeed;
+    let mut id = 0;
+    let value = to_json(spec, &mut id);
+    let de = deserializer(log);
+    match catch(|| de.deserialize(&value)) {
+        Err(p) => Err(Found { kind: p.key(), detail: format!("ViewDeserializer panicked: {} ({}:{}) on {}", p.message, p.file, p.line, value) }),
+        Ok(Err(e)) => Err(Found { kind: format!("json-twin-rejected:{}", spec.kind()), detail: format!("ViewDeserializer rejected the JSON form: {e}; json: {value}") }),
+        Ok(Ok(v)) => Ok(v),
+    }
+}
+
+#[derive(Default)]
+struct Counters {
+    trees: AtomicU64,
+    evaluations: AtomicU64,
+    twin_evaluations: AtomicU64,
+    twin_trees: AtomicU64,
+    no_json_form: AtomicU64,
+    nontrivial: AtomicU64,
+    probe_cells: AtomicU64,
+    violating_cases: AtomicU64,
+}
+
+fn witness(spec: &Spec, ct: Ct, glyphs: bool, twin: bool) -> Value {
+    json!({"spec": serde_json::to_value(spec).unwrap_or(Value::Null), "ct": ct.json(), "glyphs": glyphs, "twin": twin})
+}
+
+/// Compare the twin with the direct build for one case.
+fn twin_differs(direct: &EvalOut, twin: &EvalOut) -> Option<String> {
+    if direct.layout != twin.layout {
+        return Some(format!("layout trees differ: direct (depth,pos,size)={:?} json={:?}", direct.layout, twin.layout));
+    }
+    if direct.canvas != twin.canvas {
+        let i = direct.canvas.iter().zip(&twin.canvas).position(|(a, b)| a != b).unwrap_or(0);
+        return Some(format!("same layout {:?} but canvases differ at canvas cell #{}: direct {:?} json {:?}", direct.layout, i, direct.canvas[i], twin.canvas[i]));
+    }
+    None
+}
+
+fn check_tree(
+    spec: &Spec,
+    ctxs: &Ctxs,
+    cts: &[Ct],
+    counters: &Counters,
+    viol: &Violations,
+    samples: &Samples,
+    layouts: &mut HashSet<u64>,
+) {
+    counters.trees.fetch_add(1, Ordering::Relaxed);
+    let log = Arc::new(Log::default());
+    let mut nodes = vec![];
+    let mut id = 0;
+    let view = match catch(|| build(spec, &mut id, &mut nodes, &log)) {
+        Ok(v) => v,
+        Err(p) => {
+            viol.add(p.key(), format!("building {} panicked: {}", spec.show(), p.message), witness(spec, cts[0], false, false));
+            return;
+        }
+    };
+    let twin_log = Arc::new(Log::default());
+    let twin: Option<ArcView<'static>> = if spec.has_nan() {
+        counters.no_json_form.fetch_add(1, Ordering::Relaxed);
+        None
+    } else {
+        match build_twin(spec, &twin_log) {
+            Ok(v) => {
+                counters.twin_trees.fetch_add(1, Ordering::Relaxed);
+                Some(v)
+            }
+            Err(f) => {
+                viol.add(f.kind, format!("{}: {}", spec.show(), f.detail), witness(spec, cts[0], false, true));
+                None
+            }
+        }
+    };
+    let glyph_settings: &[bool] = if spec.glyph_sensitive() { &[false, true] } else { &[false] };
+    let mut evals = 0u64;
+    let mut twin_evals = 0u64;
+    let mut nontrivial = 0u64;
+    let mut probe_cells = 0u64;
+    let tree_hash = hash64(spec);
+    for glyphs in glyph_settings {
+        let vctx = ctxs.get(*glyphs);
+        for (cti, ct) in cts.iter().enumerate() {
+            evals += 1;
+            samples.offer(tree_hash ^ (cti as u64) << 1 ^ *glyphs as u64, || {
+                json!({"tree": spec.show(), "constraint_min_max": ct.json(), "glyphs": glyphs})
+            });
+            let direct = match evaluate(spec, &*view, Some(&nodes), &log, vctx, *ct, *glyphs) {
+                Ok(o) => o,
+                Err(f) => {
+                    counters.violating_cases.fetch_add(1, Ordering::Relaxed);
+                    viol.add(
+                        f.kind,
+                        format!("{} under min={:?} max={:?} glyphs={}: {}", spec.show(), ct.min, ct.max, glyphs, f.detail),
+                        witness(spec, *ct, *glyphs, false),
+                    );
+                    continue;
+                }
+            };
+            if !direct.root_size.is_empty() && direct.canvas.iter().any(|(k, _)| *k != (0, SENT_CHAR as u32, 0, 0)) {
+                nontrivial += 1;
+            }
+            probe_cells += direct.painted as u64;
+            layouts.insert(hash64(&direct.layout));
+            if let Some(twin) = &twin {
+                twin_evals += 1;
+                match evaluate(spec, &**twin, None, &twin_log, vctx, *ct, *glyphs) {
+                    Ok(t) => {
+                        if let Some(d) = twin_differs(&direct, &t) {
+                            counters.violating_cases.fetch_add(1, Ordering::Relaxed);
+                            viol.add(
+                                format!("json-twin-differs:{}", spec.kind()),
+                                format!("{} under min={:?} max={:?} glyphs={}: rebuilt through ViewDeserializer: {}", spec.show(), ct.min, ct.max, glyphs, d),
+                                witness(spec, *ct, *glyphs, true),
+                            );
+                        }
+                    }
+                    Err(f) => {
+                        counters.violating_cases.fetch_add(1, Ordering::Relaxed);
+                        viol.add(
+                            format!("json:{}", f.kind),
+                            format!("{} rebuilt through ViewDeserializer, under min={:?} max={:?} glyphs={}: {}", spec.show(), ct.min, ct.max, glyphs, f.detail),
+                            witness(spec, *ct, *glyphs, true),
+                        );
+                    }
+                }
+            }
+        }
+    }
+    counters.evaluations.fetch_add(evals, Ordering::Relaxed);
+    counters.twin_evaluations.fetch_add(twin_evals, Ordering::Relaxed);
+    counters.nontrivial.fetch_add(nontrivial, Ordering::Relaxed);
+    counters.probe_cells.fetch_add(probe_cells, Ordering::Relaxed);
+}
+
+// ---------------------------------------------------------------------------------------------
+// grammars and enumeration
+// ---------------------------------------------------------------------------------------------
+
+struct Grammar {
+    name: &'static str,
+    atoms: Vec<Spec>,
+    unaries: Vec<Unary>,
+    /// (vertical?, justify index)
+    dj: Vec<(bool, u8)>,
+    attrs: Vec<FlexAttr>,
+    max_children: usize,
+    empty_flex: bool,
+    /// children of a flex are atoms only (no nesting)
+    flat: bool,
+}
+
+enum Block {
+    Atoms,
+    EmptyFlex,
+    Unary,
+    Flex(Vec<usize>),
+}
+
+fn compositions(total: usize, max_parts: usize) -> Vec<Vec<usize>> {
+    fn rec(rest: usize, parts_left: usize, cur: &mut Vec<usize>, out: &mut Vec<Vec<usize>>) {
+        if rest == 0 {
+            if !cur.is_empty() {
+                out.push(cur.clone());
+            }
+            return;
+        }
+        if parts_left == 0 {
+            return;
+        }
+        for first in 1..=rest {
+            cur.push(first);
+            rec(rest - first, parts_left - 1, cur, out);
+            cur.pop();
+        }
+    }
+    let mut out = vec![];
+    rec(total, max_parts, &mut vec![], &mut out);
+    out
+}
+
+impl Grammar {
+    /// blocks of level `n` with their sizes, given the materialised lower levels
+    fn blocks(&self, n: usize, lower: &[Vec<Spec>]) -> Vec<(Block, u64)> {
+        let mut v = vec![];
+        if n == 1 {
+            v.push((Block::Atoms, self.atoms.len() as u64));
+            if self.empty_flex {
+                v.push((Block::EmptyFlex, self.dj.len() as u64));
+            }
+            return v;
+        }
+        if !self.unaries.is_empty() {
+            v.push((Block::Unary, self.unaries.len() as u64 * lower[n - 1].len() as u64));
+        }
+        for comp in compositions(n - 1, self.max_children) {
+            if self.flat && comp.iter().any(|p| *p != 1) {
+                continue;
+            }
+            let mut count = self.dj.len() as u64;
+            for p in &comp {
+                count *= self.attrs.len() as u64 * self.child_pool(*p, lower).len() as u64;
+            }
+            if count > 0 {
+                v.push((Block::Flex(comp), count));
+            }
+        }
+        v
+    }
+
+    fn child_pool<'a>(&'a self, size: usize, lower: &'a [Vec<Spec>]) -> &'a [Spec] {
+        if self.flat {
+            &self.atoms
+        } else {
+            &lower[size]
+        }
+    }
+
+    fn get(&self, n: usize, lower: &[Vec<Spec>], blocks: &[(Block, u64)], mut idx: u64) -> Spec {
+        for (block, count) in blocks {
+            if idx >= *count {
+                idx -= count;
+                continue;
+            }
+            return match block {
+                Block::Atoms => self.atoms[idx as usize].clone(),
+                Block::EmptyFlex => {
+                    let (v, j) = self.dj[idx as usize];
+                    Spec::Flex(v, j, vec![])
+                }
+                Block::Unary => {
+                    let u = self.unaries[(idx % self.unaries.len() as u64) as usize];
+                    let child = &lower[n - 1][(idx / self.unaries.len() as u64) as usize];
+                    Spec::Unary(u, Box::new(child.clone()))
+                }
+                Block::Flex(comp) => {
+                    let (v, j) = self.dj[(idx % self.dj.len() as u64) as usize];
+                    idx /= self.dj.len() as u64;
+                    let mut children = vec![];
+                    for p in comp {
+                        let pool = self.child_pool(*p, lower);
+                        let attr = self.attrs[(idx % self.attrs.len() as u64) as usize];
+                        idx /= self.attrs.len() as u64;
+                        let child = &pool[(idx % pool.len() as u64) as usize];
+                        idx /= pool.len() as u64;
+                        children.push((attr, child.clone()));
+                    }
+                    Spec::Flex(v, j, children)
+                }
+            };
+        }
+        unreachable!("index out of range")
+    }
+}
+
+fn leaf(l: Leaf) -> Spec {
+    Spec::Leaf(l)
+}
+
+fn all_dj() -> Vec<(bool, u8)> {
+    let mut v = vec![];
+    for vertical in [false, true] {
+        for j in 0..6 {
+            v.push((vertical, j));
+        }
+    }
+    v
+}
+
+fn attrs(flex: &[u8], aligns: &[u8], faces: &[bool]) -> Vec<FlexAttr> {
+    let mut v = vec![];
+    for f in flex {
+        for a in aligns {
+            for face in faces {
+                v.push(FlexAttr { flex: *f, align: *a, face: *face });
+            }
+        }
+    }
+    v
+}
+
+fn cont(size: u8, vertical: u8, horizontal: u8, margins: u8, face: bool) -> Unary {
+    Unary::Container(ContP { size, vertical, horizontal, margins, face })
+}
+
+fn grammar_structure() -> Grammar {
+    Grammar {
+        name: "S1-structure",
+        atoms: vec![leaf(Leaf::ProbeFill), leaf(Leaf::ProbeFixed), leaf(Leaf::StrNl), leaf(Leaf::ScrollBar(true, 1)), leaf(Leaf::Fill)],
+        unaries: vec![
+            cont(0, 1, 1, 1, true),
+            cont(0, 4, 5, 0, false),
+            cont(1, 2, 3, 2, false),
+            cont(2, 6, 4, 0, true),
+            Unary::Frame,
+            Unary::Tag,
+            Unary::Dynamic,
+        ],
+        dj: vec![(false, 0), (false, 4), (true, 0), (true, 4)],
+        attrs: vec![FlexAttr { flex: 0, align: 0, face: false }, FlexAttr { flex: 1, align: 2, face: true }],
+        max_children: 3,
+        empty_flex: true,
+        flat: false,
+    }
+}
+
+fn all_leaves() -> Vec<Spec> {
+    let mut v = vec![
+        leaf(Leaf::ProbeFill),
+        leaf(Leaf::ProbeFixed),
+        leaf(Leaf::StrAb),
+        leaf(Leaf::StrNl),
+        leaf(Leaf::StrWide),
+        leaf(Leaf::TextNoWrap),
+        leaf(Leaf::Fill),
+        leaf(Leaf::Unit),
+        leaf(Leaf::Image),
+        leaf(Leaf::ImageAscii),
+        leaf(Leaf::Glyph),
+        leaf(Leaf::Surface),
+        leaf(Leaf::None),
+    ];
+    for vertical in [false, true] {
+        for vis in 0..4 {
+            v.push(leaf(Leaf::ScrollBar(vertical, vis)));
+        }
+    }
+    v
+}
+
+const DECORATORS: [Unary; 7] =
+    [Unary::Frame, Unary::Tag, Unary::Dynamic, Unary::Some, Unary::Either(true), Unary::Either(false), Unary::Trace];
+
+fn grammar_rich() -> Grammar {
+    let mut unaries = vec![];
+    for size in 0..3 {
+        for v in 0..8 {
+            for h in 0..8 {
+                for m in 0..4 {
+                    unaries.push(cont(size, v, h, m, m == 1));
+                }
+            }
+        }
+    }
+    unaries.extend(DECORATORS);
+    Grammar {
+        name: "S2-rich",
+        atoms: all_leaves(),
+        unaries,
+        dj: all_dj(),
+        attrs: attrs(&[0, 1, 2, 3, 4, 5, 6], &FLEX_ALIGNS, &[false, true]),
+        max_children: 3,
+        empty_flex: true,
+        flat: false,
+    }
+}
+
+fn grammar_intermediate() -> Grammar {
+    let mut unaries = vec![];
+    for size in 0..3 {
+        for a in 0..8 {
+            for m in 0..4 {
+                unaries.push(cont(size, a, a, m, m == 1));
+            }
+        }
+    }
+    unaries.extend(DECORATORS);
+    Grammar {
+        name: "S2-intermediate",
+        atoms: vec![
+            leaf(Leaf::ProbeFixed),
+            leaf(Leaf::ProbeFill),
+            leaf(Leaf::StrAb),
+            leaf(Leaf::TextNoWrap),
+            leaf(Leaf::Image),
+            leaf(Leaf::Glyph),
+            leaf(Leaf::ScrollBar(false, 3)),
+            leaf(Leaf::None),
+        ],
+        unaries,
+        dj: all_dj(),
+        attrs: attrs(&[0, 1, 2, 3, 4, 5, 6], &[0, 5], &[false]),
+        max_children: 3,
+        empty_flex: true,
+        flat: false,
+    }
+}
+
+fn framed(l: Leaf) -> Spec {
+    Spec::Unary(Unary::Frame, Box::new(leaf(l)))
+}
+
+fn grammar_flex(name: &'static str, atoms: Vec<Spec>, attrs: Vec<FlexAttr>) -> Grammar {
+    Grammar { name, atoms, unaries: vec![], dj: all_dj(), attrs, max_children: 3, empty_flex: false, flat: true }
+}
+
+/// (grammar, levels to enumerate)
+fn subspaces(tier: Tier) -> Vec<(Grammar, Vec<usize>)> {
+    let all_flex = [0u8, 1, 2, 3, 4, 5, 6];
+    let mut v = vec![];
+    v.push((grammar_structure(), (1..=tier.pick(4, 5)).collect()));
+    v.push((grammar_rich(), vec![1, 2]));
+    {
+        // every container variant over children that ignore or forward their constraint
+        let rich = grammar_rich();
+        let probe = || Box::new(leaf(Leaf::ProbeFixed));
+        v.push((
+            Grammar {
+                name: "S2-containers-over-composites",
+                atoms: vec![
+                    framed(Leaf::ProbeFixed),
+                    Spec::Unary(Unary::Tag, probe()),
+                    Spec::Unary(Unary::Dynamic, Box::new(leaf(Leaf::ScrollBar(true, 1)))),
+                    Spec::Flex(false, 0, vec![(FlexAttr { flex: 0, align: 0, face: false }, leaf(Leaf::ProbeFixed)), (FlexAttr { flex: 1, align: 5, face: true }, leaf(Leaf::ProbeFill))]),
+                ],
+                unaries: rich.unaries.iter().copied().filter(|u| matches!(u, Unary::Container(_))).collect(),
+                dj: vec![],
+                attrs: vec![],
+                max_children: 0,
+                empty_flex: false,
+                flat: false,
+            },
+            vec![2],
+        ));
+    }
+    if tier == Tier::Thorough {
+        v.push((grammar_intermediate(), vec![1, 2, 3]));
+    }
+    match tier {
+        Tier::Quick => {
+            v.push((
+                grammar_flex(
+                    "S3-flex-2-children",
+                    vec![leaf(Leaf::ProbeFixed), leaf(Leaf::StrAb), framed(Leaf::ProbeFixed)],
+                    attrs(&all_flex, &FLEX_ALIGNS, &[false]),
+                ),
+                vec![3],
+            ));
+            v.push((
+                grammar_flex("S3-flex-3-children", vec![leaf(Leaf::ProbeFixed), framed(Leaf::ProbeFill)], attrs(&all_flex, &[0], &[false])),
+                vec![4],
+            ));
+        }
+        Tier::Thorough => {
+            v.push((
+                grammar_flex(
+                    "S3-flex-2-children",
+                    vec![leaf(Leaf::ProbeFixed), leaf(Leaf::ProbeFill), leaf(Leaf::StrAb), framed(Leaf::ProbeFixed)],
+                    attrs(&all_flex, &FLEX_ALIGNS, &[false, true]),
+                ),
+                vec![3],
+            ));
+            v.push((
+                grammar_flex(
+                    "S3-flex-3-children",
+                    vec![leaf(Leaf::ProbeFixed), leaf(Leaf::StrAb), framed(Leaf::ProbeFill)],
+                    attrs(&all_flex, &[0, 5], &[false]),
+                ),
+                vec![4],
+            ));
+        }
+    }
+    v
+}
+
+// ---------------------------------------------------------------------------------------------
+// run / replay
+// ---------------------------------------------------------------------------------------------
+
+/// per-thread set of layout hashes, merged into the global one when the worker state is dropped
+struct LocalSet<'a> {
+    set: HashSet<u64>,
+    global: &'a Mutex<HashSet<u64>>,
+}
+
+impl Drop for LocalSet<'_> {
+    fn drop(&mut self) {
+        self.global.lock().unwrap().extend(self.set.drain());
+    }
+}
+
+pub fn run(ctx: &Ctx) -> Result<Report, String> {
+    let viol = Violations::new();
+    let samples = Samples::new(ctx.seed);
+    let counters = Counters::default();
+    let cts = constraints();
+    assert_eq!(cts.len(), 100);
+    let capped = AtomicBool::new(false);
+    let layouts: Mutex<HashSet<u64>> = Mutex::new(HashSet::new());
+    let mut space_report = vec![];
+    let mut max_nodes = 0usize;
+
+    for (grammar, levels) in subspaces(ctx.tier) {
+        let top = *levels.iter().max().unwrap();
+        // materialise the levels below the top one (needed as sub-trees); the top level is
+        // enumerated lazily by index
+        let mut lower: Vec<Vec<Spec>> = vec![vec![]];
+        for n in 1..top {
+            if grammar.flat {
+                lower.push(vec![]);
+                continue;
+            }
+            let blocks = grammar.blocks(n, &lower);
+            let total: u64 = blocks.iter().map(|b| b.1).sum();
+            let level: Vec<Spec> = (0..total).into_par_iter().map(|i| grammar.get(n, &lower, &blocks, i)).collect();
+            lower.push(level);
+        }
+        for n in levels {
+            let blocks = grammar.blocks(n, &lower);
+            let total: u64 = blocks.iter().map(|b| b.1).sum();
+            let done = AtomicU64::new(0);
+            (0..total).into_par_iter().for_each_init(
+                || (Ctxs::new(), LocalSet { set: HashSet::new(), global: &layouts }),
+                |(ctxs, local), idx| {
+                    let local_layouts = &mut local.set;
+                    if capped.load(Ordering::Relaxed) {
+                        return;
+                    }
+                    if idx % 256 == 0 && ctx.over_cap() {
+                        capped.store(true, Ordering::Relaxed);
+                        return;
+                    }
+                    let spec = grammar.get(n, &lower, &blocks, idx);
+                    check_tree(&spec, ctxs, &cts, &counters, &viol, &samples, local_layouts);
+                    done.fetch_add(1, Ordering::Relaxed);
+                    if local_layouts.len() > 4096 {
+                        layouts.lock().unwrap().extend(local_layouts.drain());
+                    }
+                },
+            );
+            let done = done.load(Ordering::Relaxed);
+            if done > 0 {
+                max_nodes = max_nodes.max(n);
+            }
+            space_report.push(json!({"grammar": grammar.name, "level": n, "trees": total, "checked": done}));
+        }
+    }
+
+    let capped = capped.load(Ordering::Relaxed);
+    let g = |a: &AtomicU64| a.load(Ordering::Relaxed);
+    let mut r = Report::new("exploration");
+    r.set("evaluations", g(&counters.evaluations))
+        .set("distinct_nontrivial", g(&counters.nontrivial))
+        .set(
+            "rule",
+            "one evaluation = layout + render + all oracles of one (view tree, constraint, glyph setting) through the Rust API; \
+             trees are distinct by construction within a sub-space (sub-spaces overlap on a few small trees); the glyph dimension is \
+             explored only for trees containing a glyph-sensitive view (Frame, Glyph); the JSON twin of each case is evaluated in \
+             addition (twin_evaluations); non-trivial = the root reported a non-empty size and rendering changed at least one canvas cell",
+        )
+        .set("samples", samples.into_vec())
+        .set("exhaustive", !capped)
+        .set("capped", capped)
+        .set("trees", g(&counters.trees))
+        .set("trees_with_json_twin", g(&counters.twin_trees))
+        .set("trees_without_json_form_nan_flex", g(&counters.no_json_form))
+        .set("twin_evaluations", g(&counters.twin_evaluations))
+        .set("constraints", cts.len())
+        .set("sub_spaces", json!(space_report))
+        .set("probe_cells_checked", g(&counters.probe_cells))
+        .set("violating_cases", g(&counters.violating_cases))
+        .set("distinct_layout_trees_seen", layouts.lock().unwrap().len())
+        .set("max_nodes_level", max_nodes)
+        .set("raw_violations", viol.raw_count());
+    r.assume("the surface handed to render has the size of the constraint's maximum; a root larger than that is clipped like any child");
+    r.assume("view types without a JSON form (probe, (), RGBA fill, scroll bar, surface, None, Frame, Dynamic, Option, Either) enter the JSON twin through handlers registered with ViewDeserializer::register; the JSON type \"color\" cannot be used because ViewDeserializer feeds the whole object to a string deserializer");
+    r.assume("flex factors NaN have no JSON representation: such trees are checked through the Rust API only");
+    r.assume("an Err returned by layout, or by render for a layout computed by the same view, is reported as a violation (the statement promises that leaves paint where the layout says)");
+    r.assume("direct flex nodes: vertical ones whose factors are all positive are built with Flex::push_child_ext, all others with FlexRef over a Vec of FlexChild (raw factors, as the JSON form keeps them); both share flex_layout/flex_render");
+    r.violations = viol.into_vec();
+    Ok(r)
+}
+
+pub fn replay(w: &Value) -> Result<(bool, String), String> {
+    let spec: Spec = serde_json::from_value(w["spec"].clone()).map_err(|e| format!("bad spec: {e}"))?;
+    let c = w["ct"].as_array().ok_or("ct")?;
+    let n = |i: usize| c.get(i).and_then(|x| x.as_u64()).map(|x| x as usize).ok_or("ct");
+    let ct = Ct { min: Size::new(n(0)?, n(1)?), max: Size::new(n(2)?, n(3)?) };
+    let glyphs = w["glyphs"].as_bool().ok_or("glyphs")?;
+    let twin = w["twin"].as_bool().unwrap_or(false);
+    let ctxs = Ctxs::new();
+    let vctx = ctxs.get(glyphs);
+    let log = Arc::new(Log::default());
+    let mut nodes = vec![];
+    let mut id = 0;
+    let header = format!("tree {} under min={:?} max={:?} glyphs={}", spec.show(), ct.min, ct.max, glyphs);
+    let view = match catch(|| build(&spec, &mut id, &mut nodes, &log)) {
+        Ok(v) => v,
+        Err(p) => return Ok((true, format!("{header}: build panicked: {}", p.message))),
+    };
+    let direct = evaluate(&spec, &*view, Some(&nodes), &log, vctx, ct, glyphs);
+    if !twin {
+        return Ok(match direct {
+            Err(f) => (true, format!("{header}\n[{}] {}", f.kind, f.detail)),
+            Ok(o) => (false, format!("{header}\nall oracles hold; layout (depth,pos,size) = {:?}", o.layout)),
+        });
+    }
+    let twin_log = Arc::new(Log::default());
+    let tv = match build_twin(&spec, &twin_log) {
+        Ok(v) => v,
+        Err(f) => return Ok((true, format!("{header}\n[{}] {}", f.kind, f.detail))),
+    };
+    match evaluate(&spec, &*tv, None, &twin_log, vctx, ct, glyphs) {
+        Err(f) => Ok((true, format!("{header} (rebuilt through ViewDeserializer)\n[json:{}] {}", f.kind, f.detail))),
+        Ok(t) => match direct {
+            Err(f) => Ok((true, format!("{header}\n direct build fails: [{}] {}", f.kind, f.detail))),
+            Ok(d) => Ok(match twin_differs(&d, &t) {
+                Some(diff) => (true, format!("{header}\n expected: JSON twin lays out and paints like the direct build; observed: {diff}")),
+                None => (false, format!("{header}\n JSON twin identical to the direct build; layout {:?}", d.layout)),
+            }),
+        },
+    }
 }
